@@ -228,7 +228,7 @@ Definition wf_arg (be : bool) (a : arg) : bool :=
   (a_ti a <? 2 ^ 32) && Bool.eqb (a_be a) be &&
   negb (has (a_ti a) TI_VARI || has (a_ti a) TI_FIXP) &&
   match fixed_len (a_ti a) with
-  | Some len => plen (a_raw a) =? len
+  | Some len => negb (is_lenpref (a_ti a)) && (plen (a_raw a) =? len)
   | None =>
       negb (has (a_ti a) TI_BOOL || has (a_ti a) (N.lor TI_SINT TI_UINT) || has (a_ti a) TI_FLOA)
       && is_lenpref (a_ti a) && (plen (a_raw a) <=? 65535)
